@@ -119,6 +119,7 @@ theorem nfInv_setBefore {e : Expr} (h : e.nfInv) {b : List Trivia} (hb : Alt b) 
   | app n x g fa b' a => exact ⟨h.1, h.2.1, h.2.2.1, h.2.2.2.1, hb, h.2.2.2.2.2⟩
   | wth => exact h.elim
   | asrt => exact h.elim
+  | sel => exact h.elim
 
 theorem nfInv_addAfter {e : Expr} (h : e.nfInv) (hc : closedT (e.effAfter false)) {ts : List Trivia} (hts : Alt ts) :
     (e.addAfter ts).nfInv := by
@@ -135,6 +136,7 @@ theorem nfInv_addAfter {e : Expr} (h : e.nfInv) (hc : closedT (e.effAfter false)
   | app n x g fa b a => exact ⟨h.1, h.2.1, h.2.2.1, h.2.2.2.1, h.2.2.2.2.1, alt_append_closed h.2.2.2.2.2 hc hts⟩
   | wth => exact h.elim
   | asrt => exact h.elim
+  | sel => exact h.elim
 
 theorem closedT_append {a b : List Trivia} (ha : closedT a) (hb : closedT b) : closedT (a ++ b) := by
   rcases hb with h | ⟨c, hc⟩
@@ -589,6 +591,7 @@ mutual
 theorem cst_nf : (c : Cst) → c.wf = true → c.basic = true → ∀ (e : Expr), c.parse = .ok e →
     e.nfInv ∧ e.before = [] ∧ e.after = [] ∧ e.notBinding = true
   | .kw .., _, hbs, _, _ => by simp [Cst.basic] at hbs
+  | .sel .., _, hbs, _, _ => by simp [Cst.basic] at hbs
   | .paren its cg, hwf, hbs, e, hp => by
     simp only [Cst.wf, Bool.and_eq_true, beq_iff_eq] at hwf
     simp only [Cst.parse] at hp
@@ -930,6 +933,7 @@ theorem inlineClean_of_B : (e : Expr) → e.inlineCleanB = true → e.inlineClea
     · exact h1
   | .wth .., h => by simp [Expr.inlineCleanB] at h
   | .asrt .., h => by simp [Expr.inlineCleanB] at h
+  | .sel .., h => by simp [Expr.inlineCleanB] at h
 theorem allInlineClean_of_B : (es : List Expr) → allInlineCleanB es = true → allInlineClean es
   | [], _ => trivial
   | e :: rest, h => by
